@@ -8,7 +8,6 @@ open SSVerif.Jsgf
 #print axioms C05_comparison_decides
 #print axioms C05_expand_correct
 #print axioms C05_compile_correct
-#print axioms C05_parse_total
 #print axioms C05_parse_print
 #print axioms C05_text_compile_correct
 #print axioms C05_weights_normalised
